@@ -442,6 +442,10 @@ def align_variable_names_with_convention(
         str: Source code, where all variable names comply with normal convention
     """
     ast_tree = core.parse(source)
+    # "global x" and "nonlocal x" spell the name in a way that is not renamed with the variable
+    preserve = frozenset(preserve) | {
+        name for node in core.walk(ast_tree, (ast.Global, ast.Nonlocal)) for name in node.names
+    }
     renamings = collections.defaultdict(set)
     classdefs: List[ast.ClassDef] = []
     funcdefs: List[ast.FunctionDef] = []
